@@ -887,7 +887,11 @@ func (f *framer) readTypeInfo() TypeInfo {
 
 	if simple.typ == TypeCustom {
 		simple.custom = f.readString()
-		if cassType := getApacheCassandraType(simple.custom); cassType != TypeCustom {
+		switch cassType := getApacheCassandraType(simple.custom); cassType {
+		case TypeCustom, TypeList, TypeSet, TypeMap, TypeTuple:
+			// parameterised marshal classes carry their parameters inside the class
+			// name, no further [option]s follow in the frame: keep them custom
+		default:
 			simple.typ = cassType
 		}
 	}
